@@ -1,5 +1,5 @@
 SPECIFICATION Spec
-CONSTANTS B1 = 4096 B2 = 28 MLen = 17 Variant = "found"
+CONSTANTS B1 <- EnvB1 B2 <- EnvB2 MLen <- EnvMLen Variant = "found"
 CONSTANT Lengths <- MCLengths
 CONSTANT Descs <- MCDescs
 CONSTANT Desc <- MCDesc
